@@ -92,7 +92,7 @@ def stepIdx (st : DState) (cmd : String) (args : List String) : DState × String
       match parseIdx? i with
       | some idx =>
           if idx.length != st.box.length then (st, "bad-op") else
-          let ist := activate st.box st.ist idx
+          let ist := activateGen st.box st.ist idx
           ({ st with ist := ist }, showIState ist)
       | none => (st, "bad-op")
   | "idx.look", [i] =>
@@ -101,7 +101,7 @@ def stepIdx (st : DState) (cmd : String) (args : List String) : DState × String
       | none => (st, "bad-op")
   | "idx.nbrs", [i] =>
       match parseIdx? i with
-      | some idx => (st, showSet (nbrs st.box st.ist.active idx))
+      | some idx => (st, showSet (nbrsGen st.box st.ist.active idx))
       | none => (st, "bad-op")
   | "idx.ie", [which, i] =>
       match parseIdx? i with
